@@ -194,6 +194,13 @@ def gen_programs(seed, n_cases):
         if any(not comps for (_, comps) in dw):
             continue   # an archetype without any enabled component has no storage type (`Storage0`): rejected with and without the attributes alike
         anames = [a[2] for a in w[1]]
+        # C05: an ambiguous OneOf behind (or in front of) a parameter that already excludes the
+        # ambiguous archetype must not compile
+        if sum(1 for p in out if p["expect"] == "fail" and p.get("why", "").startswith("a OneOf matching two")) < max(4, n_cases // 6):
+            for aq in mac.gen_ambiguous_queries(rng, dw)[:2]:
+                akind = rng.choice(["find", "find_borrow", "iter", "iter_borrow", "iter_destroy"])
+                out.append({"name": f"e2e_{len(out)}_ambiguous", "src": reject_program(w, rho, aq, "iter" if akind.startswith("find") else akind), "expect": "fail", "msg": "is ambiguous", "prop": "C05",
+                            "why": "a OneOf matching two components of one archetype must be rejected wherever it is written", "case": mac.fmt_world(w)[1] + " query " + mac.fmt_query(aq), "rho": rho})
         qs, kinds = [], []
         for q in qs_all:
             if not query_supported(q, dw, rho, [an for (an, _) in dw]):
